@@ -177,25 +177,34 @@ class Ref(object):
 
     # -- custom formulas -------------------------------------------------
     def _custom_leaf(self, b, x, trace):
-        """a custom form used as a potential: the library has no analytic
-        derivative for it and falls back to a central difference (h=1e-6).  The
-        reference returns the true derivatives and attaches the admissible
-        uncertainty of that documented fallback to them."""
+        """a custom form used as a potential.  From potable text the library has no
+        analytic derivative for it (b["has"] absent/0) and falls back to a central
+        difference (h=1e-6); Python-API callables may offer deriv (has=1) or deriv and
+        deriv2 (has=2).  The reference returns the true derivatives and attaches the
+        admissible uncertainty of the documented fallback to the ones obtained numerically."""
         n = x.n
-        if n == 0:
-            return self.custom_call(b["name"], [x] + [_jconst(p, 0) for p in b["p"]], trace)
-        big = Jet(list(x.c) + [EN(0.0)] * (3 - n)) if n < 3 else x
-        full = self.custom_call(b["name"], [big] + [_jconst(p, 3) for p in b["p"]], trace)
+        has = b.get("has", 0)
+        if n == 0 or has >= 2:
+            return self.custom_call(b["name"], [x] + [_jconst(p, n) for p in b["p"]], trace)
+        top = min(4, max(n, 3 + has))
+        big = Jet(list(x.c) + [EN(0.0)] * (top - n)) if n < top else x
+        full = self.custom_call(b["name"], [big] + [_jconst(p, top) for p in b["p"]], trace)
         c = list(full.c[:n + 1])
-        d3 = abs(full.d(3).v)
-        c0 = c[0]
-        u1 = 8.0 * EPS * c0.e / NUM_H + NUM_H * NUM_H * d3 / 24.0 + 4 * c0.u / NUM_H
-        c[1] = EN(c[1].v, c[1].e, c[1].u + u1)
-        if n >= 2:
-            # a numerical derivative of a numerical derivative: unreliable
-            c[2] = EN(c[2].v, c[2].e, float("inf"))
-        if n >= 3:
-            c[3] = EN(c[3].v, c[3].e, float("inf"))
+        inf = float("inf")
+        if has == 0:
+            c0 = c[0]
+            u1 = 8.0 * EPS * c0.e / NUM_H + NUM_H * NUM_H * abs(full.d(3).v) / 24.0 + 4 * c0.u / NUM_H
+            c[1] = EN(c[1].v, c[1].e, c[1].u + u1)
+            for k in range(2, n + 1):
+                # a numerical derivative of a numerical derivative: unreliable
+                c[k] = EN(c[k].v, c[k].e, inf)
+        else:
+            if n >= 2:
+                d1 = full.d(1)
+                u2 = 8.0 * EPS * d1.e / NUM_H + NUM_H * NUM_H * abs(full.d(4).v) / 24.0 + 4 * d1.u / NUM_H
+                c[2] = EN(c[2].v, c[2].e, c[2].u + u2 / 2.0)
+            for k in range(3, n + 1):
+                c[k] = EN(c[k].v, c[k].e, inf)
         return Jet(c)
 
     def custom_call(self, name, args, trace):
